@@ -35,7 +35,7 @@ STUBS = [
     'encoder\'s documented precondition); names / filenames / content types come from menus',
 ]
 OUTSIDE = ['more than 2 parts', 'contents longer than 3 bytes', 'nested multipart', 'chunk alignment effects beyond the forced small chunk size']
-BUDGET = {'quick': 300, 'thorough': 2400}
+BUDGET = {'quick': 300, 'thorough': 900}
 
 NAMES = [b'a', b'5\\" floppy', b'a;b', b'n m']
 NAMES_DEC = ['a', '5" floppy', 'a;b', 'n m']
